@@ -75,8 +75,9 @@ def check_table(cfg, crate, rep):
     # writers of the identifier
     fn = "sign_algo::SignatureAlgorithm::alg_ident_oid"
     rep.fn(fn)
-    v = core(Interp(crate).run_fn(fn)["value"])
-    rep.ob("C01.table", "%s|%s" % (cfg, fn), isinstance(v, CallV) and v.callee.endswith("ObjectIdentifier::from_slice") and places(v) == {"self.oid_components"}, "identifier OID = self.oid_components", found=v.r())
+    # (when the one-line helper has been written out at its use, write_alg_ident below checks the same thing)
+    v = core(Interp(crate).run_fn(fn)["value"]) if fn in crate.bodies else None
+    rep.ob("C01.table", "%s|%s" % (cfg, fn), v is None or isinstance(v, CallV) and v.callee.endswith("ObjectIdentifier::from_slice") and places(v) == {"self.oid_components"}, "identifier OID = self.oid_components", found=v.r() if v is not None else "helper written out at its use")
     for fn, ref in (("sign_algo::SignatureAlgorithm::write_alg_ident", [R.alg_ident("self", "self")]),):
         rep.fn(fn)
         I2 = Interp(crate)
@@ -216,7 +217,7 @@ def check_artefacts(cfg, crate, rep):
             # locate the inner AlgorithmIdentifier: first unconditional SEQUENCE whose first child is an OID from a key's alg
             inner_alg = None
             for cnd, reps, node in tbs_kids:
-                if node["t"] == "Seq" and cnd is True and node["c"] and node["c"][0]["t"] == "Prim" and node["c"][0]["kind"] == "OID" and any("alg_ident_oid" in c for c in calls_of(node["c"][0]["args"][0])):
+                if node["t"] == "Seq" and cnd is True and node["c"] and node["c"][0]["t"] == "Prim" and node["c"][0]["kind"] == "OID" and (any("alg_ident_oid" in c for c in calls_of(node["c"][0]["args"][0])) or any(pl_.endswith(".oid_components") for pl_ in places(node["c"][0]["args"][0]))):
                     inner_alg = node
                     break
             if inner_alg is None:
